@@ -212,7 +212,7 @@ K({
                      "post: no panic; every impl gets a priority; for every edge u->v priority(v) > priority(u)",
                      "callee SpecializationPriorities::insert replaced by its contract (kani::stub)"]},
         {"file": COH, "within": r"^impl<I: Interner> SpecializationPriorities<I>$", "fn": "insert", "path": "SpecializationPriorities::insert",
-         "clauses": ["post: stored(impl) == max(old stored(impl), p); result == (stored changed); other keys untouched  (k13_insert_contract, real IndexMap)"]},
+         "clauses": ["post: stored(impl) == max(old stored(impl), p); result == (stored changed); other keys untouched  (proved by Verus unit V15)"]},
         {"file": COH, "within": r"^impl<I: Interner> SpecializationPriorities<I>$", "fn": "priority", "path": "SpecializationPriorities::priority",
          "clauses": ["defined for every impl of the forest"]},
     ],
@@ -523,6 +523,20 @@ V({
         "V8: derive(PartialOrd) on UniverseIndex is the order of `counter`; push_lifetime_outlives_goals as proved by V9; casts/constructors (to_ty, to_lifetime, to_const) are abstract",
     ],
     "trusted": ["ena", "chalk-ir fold driver"],
+})
+
+# -------------------------------------------------------------------------- V20
+V({
+    "id": "V20",
+    "title": "slg_merge_answer: SolveState::merge_answer_into_strand (chalk-engine/src/logic.rs)",
+    "template": "v20_merge_answer.rs",
+    "assumptions": [
+        "V20: Tables / Table / Stack are abstract (views: table at an index, a table's strand queue and stored answers, the table on top of the stack); Table::enqueue_strand appends to the queue and leaves goal, answer mode and answers alone; the custom Index/IndexMut impls have no precondition (in-range is the callers' invariant)",
+        "V20: unwind_stack only appends caller strands to queues; flounder_subgoal, apply_answer_subst, map_from_canonical and canonicalize_strand_from are havoc on their outputs (canonicalization is an uninterpreted function of the inference table and the strand)",
+        "V20: preconditions taken from the call sites and from the function's own panics: a subgoal is selected and in range; a negative subgoal's answer has no delayed subgoals; AnswerIndex does not overflow",
+        "V20: a change that moves the re-enqueue decision into a new helper function makes the unit UNDECIDED (unknown callee), not a violation",
+    ],
+    "trusted": ["chalk-engine Tables / Table / Stack (abstract)", "chalk-solve InferenceTable::canonicalize, apply_answer_subst"],
 })
 
 # ===========================================================================
